@@ -14,7 +14,10 @@ Step == /\ l <= Len(Trace) /\ l' = l + 1
                 /\ cur' = cur
                 /\ rej' = rej \cup (IF ev.cok /\ ~should THEN {<<cur.sc, ev.k, "accepted-although-verification-must-fail", ev.resumed, WhyNot(cur.cert, k)>>} ELSE {})
                               \cup (IF ~ev.cok /\ should THEN {<<cur.sc, ev.k, "refused-although-verification-must-pass", ev.resumed, "none">>} ELSE {})
+                              \* (a Config left without any name to verify is refused before the handshake starts: a
+                              \*  configuration error, not a CertificateVerificationError)
                               \cup (IF ~ev.cok /\ ~should /\ ev.errtype # "CertificateVerificationError" /\ ev.corigin = "local"
+                                       /\ ~(k.itv = "" /\ EffName(k) = "")
                                     THEN {<<cur.sc, ev.k, "wrong-error-type", ev.resumed, WhyNot(cur.cert, k)>>} ELSE {})
                               \cup (IF ev.cpanic # "" THEN {<<cur.sc, ev.k, "panic", ev.resumed, "none">>} ELSE {})
 TNext == Step
